@@ -353,6 +353,21 @@ Proof.
   split; [reflexivity|]. split; [reflexivity|]. split; [discriminate|]. exact w_udt_unreported.
 Qed.
 
+(** ... what holds for user-defined types (since fix 0a2c2ef): with a schema scope ns (a
+    connection whose URL carries a search_path) the change is reported exactly when the names
+    differ after the "ns." / "\"ns\"." qualifier is cut off.  Without a scope (DefaultDiff,
+    realm connections) it is never reported: the narrowed known finding. *)
+Theorem C02_postgres_udt_type_except :
+  forall ns c c', ns <> [] -> c_class c = PG_UDT -> c_class c' = PG_UDT ->
+  pg_type_changed_ns ns c c' =
+  Some (negb (str_eqb (trim_schema ns (fld 0 (c_T c'))) (trim_schema ns (fld 0 (c_T c))))).
+Proof. exact pg_udt_type_changed_ns. Qed.
+
+(** the laws hold for every schema scope *)
+Theorem C02_postgres_ns_laws :
+  forall ns, refl_laws (pg_driver_ns ns) /\ sim_laws (pg_driver_ns ns) pg_dwf.
+Proof. exact (fun ns => conj (pg_refl_laws_ns ns) (pg_sim_laws_ns ns)). Qed.
+
 (** 4f. ... what holds: in every other known class except arrays the type bit is set exactly
     when the class or the type identity differs, and ColumnChange is the union of its six bits. *)
 Theorem C02_postgres_column_bits_except :
@@ -369,7 +384,7 @@ Theorem C02_postgres_column_bits_except :
           (bit gc ChangeGenerated)).
 Proof.
   intros t c c' gc H H' K U A G.
-  exact (pg_column_bits t c c' _ gc (pg_type_changed_exact c c' H H' K U A) G).
+  exact (pg_column_bits [] t c c' _ gc (pg_type_changed_exact [] c c' H H' K U A) G).
 Qed.
 
 (** 4g. When is the side condition of 2b met: a driver without FindGeneratedIndex (MySQL,
@@ -456,6 +471,11 @@ Example C02_ex_mysql_bits :
   pg_column_change x_t x_b x_b' = Some (N.lor ChangeNull ChangeDefault) /\
   sqlite_column_change x_t x_b x_b' = Some (N.lor ChangeNull ChangeDefault).
 Proof. repeat split; vm_compute; reflexivity. Qed.
+Example C02_ex_udt_scope :
+  pg_column_change_ns PUBLIC x_t (w_udt_col [99;105;116;101;120;116]%N) (w_udt_col [108;116;114;101;101]%N) = Some ChangeType /\
+  pg_column_change_ns PUBLIC x_t (w_udt_col [99;105;116;101;120;116]%N)
+     (w_udt_col [112;117;98;108;105;99;46;99;105;116;101;120;116]%N) = Some 0%N.
+Proof. split; vm_compute; reflexivity. Qed.
 Example C02_ex_no_similar : similar_unnamed_index mysql_driver x_t' x_i1 = None.
 Proof. vm_compute. reflexivity. Qed.
 
@@ -486,3 +506,5 @@ Print Assumptions C02_mysql_bool_default_except.
 Print Assumptions C02_postgres_udt_type_refuted.
 Print Assumptions C02_postgres_column_bits_except.
 Print Assumptions C02_no_similar_index.
+Print Assumptions C02_postgres_udt_type_except.
+Print Assumptions C02_postgres_ns_laws.
